@@ -38,6 +38,7 @@ def showResult : ZR (Name × List (Key × RSet)) → String
 
 def handle (toks : List String) : Option String :=
   match toks with
+  | "zone" :: "i" :: _ => some "impl-only"       -- no model side asked for (e.g. over-long tokens)
   | "zone" :: _flag :: origin :: text :: _ => do
     let origin ← if origin == "-" then some none else (parseName origin).map some
     let text ← parseHex text
